@@ -90,6 +90,10 @@ struct Scenario {
     id: u64,
     variant: String, // tcp | tls | tls_authz
     api: String,     // rust | cabi
+    /// "current": run this scenario on a current-thread runtime (everything that becomes ready in one turn of the
+    /// reactor runs before the server task does -- bursts are bursts)
+    #[serde(default)]
+    rt: String,
     #[serde(default)]
     mode: String, // ca | self
     #[serde(default)]
@@ -1309,7 +1313,13 @@ fn main() {
         }
         let sc: Scenario = serde_json::from_str(&line).expect("scenario json");
         wd.scenario(sc.id);
-        rt.block_on(run_scenario(&sc, &sink));
+        if sc.rt == "current" {
+            let rt1 = tokio::runtime::Builder::new_current_thread().enable_all().build().unwrap();
+            rt1.block_on(run_scenario(&sc, &sink));
+            rt1.shutdown_timeout(Duration::from_millis(500));
+        } else {
+            rt.block_on(run_scenario(&sc, &sink));
+        }
         if let Some(p) = take_panic() {
             sink.emit(json!({"e":"panic","msg":p}));
         }
